@@ -339,9 +339,17 @@ func main() {
 	if *oneCase >= 0 {
 		// (a case that blocks for ever must look like a hang to whoever
 		// watches this process, not like Go's "all goroutines are asleep")
+		// the same watchdog as in a shard: no sign of progress for stall
+		// seconds is a hang (exit 3); a long case that keeps reporting
+		// progress is not
+		stillAlive()
 		go func() {
 			for {
-				time.Sleep(time.Hour)
+				time.Sleep(200 * time.Millisecond)
+				if time.Since(time.Unix(0, lastBeat.Load())).Seconds() > *stall {
+					fmt.Fprintf(os.Stderr, "\nverif-watchdog: no progress for %.0fs\n", *stall)
+					os.Exit(3)
+				}
 			}
 		}()
 		c := chooserFor(p, *base, enum, *oneCase)
@@ -366,6 +374,7 @@ func main() {
 	if *out != "" {
 		os.MkdirAll(*out, 0o755)
 		curFile, _ = os.OpenFile(filepath.Join(*out, fmt.Sprintf("shard-%d.cur", *shard)), os.O_CREATE|os.O_WRONLY, 0o644)
+		beatFile = curFile
 	}
 	isSelf := func(i int) bool { return i < 40 || (i >= len(enum) && i < len(enum)+40) }
 	sampleEvery := total / (*nshards * 6)
@@ -406,6 +415,9 @@ func main() {
 			n, st0 := caseNo.Load(), caseStart.Load()
 			if n < 0 || st0 == 0 {
 				continue
+			}
+			if b := lastBeat.Load(); b > st0 {
+				st0 = b
 			}
 			if time.Since(time.Unix(0, st0)).Seconds() > *stall && caseNo.Load() == n {
 				resMu.Lock()
@@ -565,6 +577,24 @@ func main() {
 // property as early as it can), used as the signature of a hang.
 var currentDesc atomic.Value
 
+// lastBeat is when the running case last showed that it is making progress
+// (its start, or a call of stillAlive): a long history is not a hang, a case
+// that is stuck inside one call of the library is.
+var lastBeat atomic.Int64
+
+func stillAlive() {
+	now := time.Now().UnixNano()
+	prev := lastBeat.Swap(now)
+	if beatFile != nil && now-prev > int64(200*time.Millisecond) {
+		// (the coordinator watches this file: the case index stays, the beat moves)
+		var b [16]byte
+		n := copy(b[:], fmt.Sprintf("%-15d\n", now/1e6))
+		beatFile.WriteAt(b[:n], 24)
+	}
+}
+
+var beatFile *os.File
+
 // descToStderr: a worker that runs a single case (a confirmation in isolation)
 // also writes the description to stderr, so that the coordinator can tell
 // which kind of workload a dying process was running.
@@ -605,7 +635,10 @@ func doReplay(p Prop, path string) int {
 	}()
 	if strings.HasSuffix(rf.Class, "/hang") {
 		go func() {
-			time.Sleep(12 * time.Second)
+			stillAlive()
+			for time.Since(time.Unix(0, lastBeat.Load())) < 12*time.Second {
+				time.Sleep(200 * time.Millisecond)
+			}
 			fmt.Printf("the case is still running after 12s of wall clock\nVIOLATION property=%s replay=%s\n  class=%s signature=%s\n", p.ID(), path, rf.Class, rf.Signature)
 			os.Exit(1)
 		}()
